@@ -54,6 +54,45 @@ func builtinCall(v ssa.Value, name string) *ssa.Call {
 	return c
 }
 
+// canonLoad maps a load of base.f to the first load of the same base.f in the
+// function when no instruction of the function stores to that field (then all
+// such loads yield the same value), so that facts about one load bound another.
+func canonLoad(v ssa.Value) ssa.Value {
+	u, ok := v.(*ssa.UnOp)
+	if !ok || u.Op != token.MUL {
+		return v
+	}
+	fa, ok := u.X.(*ssa.FieldAddr)
+	if !ok {
+		return v
+	}
+	fn := u.Parent()
+	if fn == nil {
+		return v
+	}
+	var first ssa.Value
+	for _, b := range fn.Blocks {
+		for _, in := range b.Instrs {
+			switch x := in.(type) {
+			case *ssa.Store:
+				if xa, ok := x.Addr.(*ssa.FieldAddr); ok && xa.Field == fa.Field && types.Identical(xa.X.Type(), fa.X.Type()) {
+					return v // the field is written somewhere in this function
+				}
+			case *ssa.UnOp:
+				if first == nil && x.Op == token.MUL {
+					if xa, ok := x.X.(*ssa.FieldAddr); ok && xa.Field == fa.Field && xa.X == fa.X {
+						first = x
+					}
+				}
+			}
+		}
+	}
+	if first != nil {
+		return first
+	}
+	return v
+}
+
 func upperBounds(v ssa.Value) ubSet {
 	memo := map[ssa.Value]ubSet{}
 	inProg := map[ssa.Value]bool{}
@@ -67,7 +106,7 @@ func upperBounds(v ssa.Value) ubSet {
 		}
 		inProg[v] = true
 		defer delete(inProg, v)
-		out := ubSet{v: true}
+		out := ubSet{v: true, canonLoad(stripConv(v)): true}
 		add := func(s ubSet) {
 			for k := range s {
 				out[k] = true
@@ -122,11 +161,14 @@ func upperBounds(v ssa.Value) ubSet {
 					if f.Kind != "cmp" {
 						continue
 					}
-					if (f.Op == token.LEQ || f.Op == token.LSS) && stripConv(f.X) == stripConv(e) {
+					ce := canonLoad(stripConv(e))
+					if (f.Op == token.LEQ || f.Op == token.LSS) && canonLoad(stripConv(f.X)) == ce {
 						es[f.Y] = true
+						es[canonLoad(stripConv(f.Y))] = true
 					}
-					if (f.Op == token.GEQ || f.Op == token.GTR) && stripConv(f.Y) == stripConv(e) {
+					if (f.Op == token.GEQ || f.Op == token.GTR) && canonLoad(stripConv(f.Y)) == ce {
 						es[f.X] = true
+						es[canonLoad(stripConv(f.X))] = true
 					}
 				}
 				if first {
